@@ -66,6 +66,12 @@ func (fhs *FastHotStuff) VoteRule(view hotstuff.View, proposal hotstuff.ProposeM
 	// The base implementation verifies both regular QCs and AggregateQCs, and asserts that the QC embedded in the
 	// block is the same as the highQC found in the aggregateQC.
 	if proposal.AggregateQC != nil {
+		// The aggregate QC must stem from the view right before the block's view (or a later one).
+		// The timeouts of an earlier view say nothing about the blocks voted for since, so an old
+		// aggregate QC would justify a fork below them.
+		if proposal.AggregateQC.View()+1 < proposal.Block.View() {
+			return false
+		}
 		hqcBlock, ok := fhs.blockchain.Get(proposal.Block.QuorumCert().BlockHash())
 		return ok && fhs.blockchain.Extends(proposal.Block, hqcBlock)
 	}
